@@ -1,5 +1,5 @@
 --------------------------- MODULE MCMultiTree ---------------------------
-EXTENDS MultiTree, Json
+EXTENDS MultiTree, Json, SequencesExt
 
 L == [new |-> TRUE, kids |-> <<>>]
 N(ks) == [new |-> TRUE, kids |-> ks]
@@ -16,6 +16,20 @@ ShapesTiny(R) == {<<L>>, <<N(<<L>>)>>} \cup {<<E(n)>> : n \in R} \cup {<<L, E(n)
 ShapesWide(R) ==
     ShapesSmall(R) \cup {<<L, L>>, <<N(<<L, L>>), L>>} \cup
     {<<E(n), E(m)>> : n \in R, m \in R} \cup {<<N(<<E(n)>>), E(n)>> : n \in R}
+
+\* wide sharing (a new tree that shares hundreds of nodes with an older one, as a new trie root does): a tree of three
+\* inner nodes with FanWidth new leaves each, and a tree of three new inner nodes that reference those leaves - one
+\* transaction then changes 3 * FanWidth reference counts in one log record
+FanWidth == 255
+FanNew == [i \in 1..FanWidth |-> L]
+LeafSeq(R) == SetToSortSeq({n \in R : nkids[n] = <<>>}, LAMBDA a, b : a < b)
+\* (the sorted leaf list is bound by a quantifier: an operator or LET definition would be evaluated again at every use)
+ShapesFan(R) ==
+    {<<N(FanNew), N(FanNew), N(FanNew)>>} \cup
+    UNION {IF Len(lv) >= 3 * FanWidth
+           THEN {<<N([i \in 1..FanWidth |-> E(lv[i])]), N([i \in 1..FanWidth |-> E(lv[FanWidth + i])]),
+                   N([i \in 1..FanWidth |-> E(lv[2 * FanWidth + i])])>>}
+           ELSE {} : lv \in {LeafSeq(R)}}
 
 CONSTANT MaxDefers
 DeferBound == nextCid <= MaxCommits + MaxDefers + 1
@@ -123,6 +137,25 @@ ScriptTwoDerefs == <<S("Commit", "ins", 1, 2), S("Commit", "ref", 1, 0), S("Proc
                      S("Commit", "deref", 1, 0), S("Commit", "deref", 1, 0), S("Process", "", 0, 0), S("Lock", "", 1, 0),
                      S("Commit", "ins", 2, 1), S("Unlock", "", 1, 0), S("Defer", "", 0, 0), S("Process", "", 0, 0),
                      S("Process", "", 0, 0), S("Pipe", "", 0, 0), S("Pipe", "", 0, 0), S("Pipe", "", 0, 0)>>
+
+\* an insertion that dereferences tree 1 in the same transaction (Swap) while a reader holds tree 1, with another commit
+\* queued behind it: the whole transaction is postponed under a fresh id; until the reader lets go, the tree it inserted
+\* must stay readable with all its new nodes; then the dereference completes
+ScriptSwapDefer == <<S("Commit", "ins", 1, 2), S("Process", "", 0, 0), S("Lock", "", 1, 0), S("Commit", "ins", 2, 0),
+                     S("Commit", "none", 0, 0), S("Defer", "", 0, 0), S("Process", "", 0, 0), S("Pipe", "", 0, 0),
+                     S("Unlock", "", 1, 0), S("Process", "", 0, 0), S("Pipe", "", 0, 0)>>
+\* ... the postponed transaction alone in the queue (same id, the worker spins), and one with a second deferral
+ScriptSwapDefer2 == <<S("Commit", "ins", 1, 2), S("Process", "", 0, 0), S("Lock", "", 1, 0), S("Commit", "ins", 2, 0),
+                      S("Commit", "none", 0, 0), S("Defer", "", 0, 0), S("Commit", "ins", 3, 0), S("Process", "", 0, 0),
+                      S("Defer", "", 0, 0), S("Process", "", 0, 0), S("Unlock", "", 1, 0), S("Process", "", 0, 0),
+                      S("Pipe", "", 0, 0)>>
+
+\* wide sharing (ShapesFan): 765 leaves under tree 1, all of them referenced again by tree 2 in one transaction; applied,
+\* cleaned, restarted; then both trees dereferenced - counts and storage are compared after every step
+ScriptFan == <<S("Commit", "ins", 1, 2), S("Process", "", 0, 0), S("Commit", "ins", 2, 1), S("Process", "", 0, 0),
+               S("Pipe", "", 0, 0), S("Pipe", "", 0, 0), S("Pipe", "", 0, 0), S("Restart", "", 0, 0),
+               S("Commit", "deref", 1, 0), S("Process", "", 0, 0), S("Pipe", "", 0, 0), S("Pipe", "", 0, 0), S("Pipe", "", 0, 0),
+               S("Commit", "deref", 2, 0), S("Process", "", 0, 0), S("Pipe", "", 0, 0), S("Pipe", "", 0, 0), S("Pipe", "", 0, 0)>>
 
 \* exhaustive checking: the observation history stays empty
 MCSpec == Init /\ obs = <<>> /\ closing = FALSE /\ [][Next /\ UNCHANGED <<obs, closing>>]_<<vars, obs, closing>>
